@@ -26,6 +26,7 @@ import (
 	"github.com/flant/shell-operator/pkg/hook/task_metadata"
 	kubeeventsmanager "github.com/flant/shell-operator/pkg/kube_events_manager"
 	kemtypes "github.com/flant/shell-operator/pkg/kube_events_manager/types"
+	metricstorage "github.com/flant/shell-operator/pkg/metric_storage"
 	shell_operator "github.com/flant/shell-operator/pkg/shell-operator"
 	"github.com/flant/shell-operator/pkg/task"
 	"github.com/flant/shell-operator/pkg/task/queue"
@@ -56,6 +57,9 @@ type Hook struct {
 	// rate limit settings (C18 placement); 0 = absent
 	IntervalMs int `json:"interval_ms,omitempty"`
 	Burst      int `json:"burst,omitempty"`
+	// Path (optional): path of the hook file relative to the hooks directory; its base name
+	// must start with the usual h<id> name. Default: h<id>.
+	Path string `json:"path,omitempty"`
 }
 type Action struct {
 	Kind string `json:"kind"` // Boot Tick KubeEv Finish Stop
@@ -64,6 +68,10 @@ type Action struct {
 	Obj  int    `json:"obj,omitempty"`
 	Q    int    `json:"q,omitempty"`
 	Ok   bool   `json:"ok,omitempty"`
+	// optional details of a Finish: exit code (overrides Ok when non-zero) and file contents
+	// keyed by the environment variable that names the file
+	Exit  int               `json:"exit,omitempty"`
+	Files map[string]string `json:"files,omitempty"`
 }
 type Input struct {
 	Cfg  []Hook   `json:"cfg"`
@@ -141,7 +149,18 @@ func parseNum(prefix, s string) int {
 	if !strings.HasPrefix(s, prefix) {
 		return -1
 	}
-	n, err := strconv.Atoi(s[len(prefix):])
+	digits := s[len(prefix):]
+	end := 0
+	for end < len(digits) && digits[end] >= '0' && digits[end] <= '9' {
+		end++
+	}
+	if end == 0 {
+		return -1
+	}
+	if prefix != "h" && end != len(digits) {
+		return -1 // only hook file names may carry a suffix after the number
+	}
+	n, err := strconv.Atoi(digits[:end])
 	if err != nil {
 		return -1
 	}
@@ -467,7 +486,13 @@ func NewSim(in Input) (*Sim, error) {
 				s.bindingQ[b.Name] = b.Queue
 			}
 		}
-		if err := linkStub(filepath.Join(hooksDir, HookName(h.Id))); err != nil {
+		rel := HookName(h.Id)
+		if h.Path != "" {
+			rel = h.Path
+			configs[filepath.Base(rel)] = HookConfigJSON(h)
+			os.MkdirAll(filepath.Dir(filepath.Join(hooksDir, rel)), 0o755)
+		}
+		if err := linkStub(filepath.Join(hooksDir, rel)); err != nil {
 			return nil, err
 		}
 	}
@@ -759,6 +784,15 @@ func (s *Sim) monitorIdOf(binding int) string {
 	return ""
 }
 
+// OpenCall returns the execution open in queue q, if any.
+func (s *Sim) OpenCall(q int) *Call { return s.open[q] }
+
+// TmpDir is the operator's temp directory for hook files.
+func (s *Sim) TmpDir() string { return filepath.Join(s.Dir, "tmp") }
+
+// HooksDir is the hooks directory.
+func (s *Sim) HooksDir() string { return filepath.Join(s.Dir, "hooks") }
+
 // Do applies one action and returns the observation at the next quiescent point.
 func (s *Sim) Do(a Action) StepObs {
 	var step StepObs
@@ -805,6 +839,12 @@ func (s *Sim) Do(a Action) StepObs {
 			if !a.Ok {
 				r.Exit = 1
 			}
+			if a.Exit != 0 {
+				r.Exit = a.Exit
+			}
+			if a.Files != nil {
+				r.Files = a.Files
+			}
 			if s.ExitFiles != nil {
 				r.Files = s.ExitFiles(a.Q, a.Ok)
 			}
@@ -837,4 +877,23 @@ func Run(in Input) Observation {
 		out.Steps = append(out.Steps, s.Do(a))
 	}
 	return out
+}
+
+// HookMetricPresent tells whether the hooks' metric storage exposes a metric family whose
+// name ends with the given name.
+func HookMetricPresent(s *Sim, name string) bool {
+	ms, ok := s.Op.HookMetricStorage.(*metricstorage.MetricStorage)
+	if !ok || ms == nil {
+		return false
+	}
+	fams, err := ms.Gatherer.Gather()
+	if err != nil {
+		return false
+	}
+	for _, f := range fams {
+		if strings.HasSuffix(f.GetName(), name) {
+			return true
+		}
+	}
+	return false
 }
